@@ -242,7 +242,9 @@ def strip_fileinfo(text):
 def export_all(od, doctype):
     """the three destinations; returns (text per destination)"""
     texts = {}
-    with tempfile.TemporaryDirectory() as d:
+    work = os.path.join(os.path.dirname(os.path.dirname(os.path.dirname(os.path.abspath(__file__)))), ".work")
+    os.makedirs(work, exist_ok=True)
+    with tempfile.TemporaryDirectory(dir=work) as d:
         path = os.path.join(d, "out." + doctype)
         canopen.export_od(od, path)          # doc type from the suffix
         with open(path) as f:
